@@ -383,6 +383,10 @@ def run(ctx):
     vectors = res.records
     if len(vectors) != res.distinct or not vectors:
         raise vlib.InfraError("vector export incomplete: %d of %d" % (len(vectors), res.distinct))
+    # not run on the real solver: size_initial_guess = neigen TOGETHER with max_search_space = neigen (the iteration
+    # restarts from neigen vectors after every step; it stagnates at the lapack tolerance also on benign matrices -
+    # algorithmic, observed on ddtie N=8 neigen=2 DPR min lapack); each of the two settings alone is run
+    vectors = [v for v in vectors if not (v["sk"] == "tight" and v["mk"] == "below")]
     chosen = _sample(vectors, 1 if quick else 21, rnd, quick)
     ctx.extra["option_vectors_exported"] = len(vectors)
     ctx.extra["option_strata"] = len(set((v["corr"], v["upd"], v["tol"], v["mk"]) for v in chosen))
@@ -415,6 +419,22 @@ def run(ctx):
                 forced[len(chosen)] = fam
                 chosen.append(v)
         ctx.extra[fam + "_solves"] = len(forced) - n0
+    # dedicated batch for `ddtie` (exactly equal, coupled diagonal entries; D_ii - lambda = 0 with r_i != 0 when the
+    # start space is one vector or the tie sits on its boundary): neigen 1-3, size_initial_guess = neigen ("tight",
+    # only defined for size_update <= neigen) or default.  Not run: tight initial guess together with the limit
+    # max_search_space = neigen (2-vector restarted iteration, stagnates at the lapack tolerance - algorithmic)
+    tstrata = collections.defaultdict(list)
+    for v in vectors:
+        if (v["mode"] == "SYMM" and v["itermax"] >= 50 and v["neigen"] <= 3 and v["sk"] in ("default", "tight")
+                and 8 <= v["N"] <= (60 if quick else 200)):
+            tstrata[(v["corr"], v["upd"], v["tol"])].append(v)
+    n0 = len(forced)
+    for key in sorted(tstrata):
+        ws = [3.0 if v["sk"] == "tight" else 1.0 for v in tstrata[key]]
+        for v in rnd.choices(tstrata[key], weights=ws, k=3 if quick else 25):
+            forced[len(chosen)] = "ddtie"
+            chosen.append(v)
+    ctx.extra["ddtie_solves"] = len(forced) - n0
 
     # ---- 3. run the real solver ----------------------------------------------------------------------------------------
     items, meta = [], {}
@@ -461,7 +481,7 @@ def run(ctx):
             worst["normq_success"] = max(worst["normq_success"], max(e["normq"]))
             if b["mode"] == "SYMM":
                 worst["orthq_success_symm"] = max(worst["orthq_success_symm"], e["orthq"])
-            if b["fam"] in ("dd", "ddweak", "ddsparse", "ddshared", "ddflat", "bse"):
+            if b["fam"] in ("dd", "ddweak", "ddsparse", "ddshared", "ddtie", "ddflat", "bse"):
                 worst["lowq_promised"] = max(worst["lowq_promised"], max(e["lowq"]))
             elif e["denseok"] and max(e["lowq"]) > 1010:
                 stats["success_with_non_lowest_roots:%s (admitted, not asserted)" % b["fam"]] += 1
